@@ -16,6 +16,48 @@ Together they give, about `Spec.sigEncode` / `Spec.sigDecode` alone, for each ro
 namespace Fips204.Props.C08
 open Fips204 Fips204.Gen Fips204.Impl
 
+/-- **`HintBitUnpack(HintBitPack(h)) = h`** on `Spec/*` alone: for every vector of `k` 0/1 polynomials with at most `omega` ones (`omega + k < 256`,
+    as in all three parameter sets) -/
+theorem hintBitUnpack_after_hintBitPack_as_written (omega k : Nat) (h : List Poly) (hok : 1 ≤ omega + k ∧ omega + k < 256)
+    (hl : h.length = k) (hb : ∀ q ∈ h, Bin q) (hsum : onesAll h ≤ omega) :
+    Spec.hintBitUnpack omega k (Spec.hintBitPack omega h) = some h := by
+  have ho : (0 : Int) ≤ (omega : Int) := Int.natCast_nonneg _
+  have hto : ((omega : Int)).toNat = omega := Int.toNat_natCast omega
+  have h20 := hint_bit_pack_is_HintBitPack .release (omega : Int) h k ho hl (by rw [hto]; exact hok) hb (by rw [hto]; exact hsum)
+  rw [hto] at h20
+  have ey : Spec.hintBitPack omega h = yOf omega h := by
+    have := hintBitPack_eq_yOf .release k (omega : Int) h ho (by rw [hto]; exact hok) hl hb (by rw [hto]; exact hsum) _ (by rw [hto]; exact h20)
+    rw [hto] at this
+    exact this
+  obtain ⟨hlen, hbytes, hdec⟩ := hintBitUnpack_yOf .release k (omega : Int) h ho (by rw [hto]; exact hok) hl hb (by rw [hto]; exact hsum)
+  rw [hto] at hlen hbytes hdec
+  have h21 := hint_bit_unpack_is_algorithm_21 .release k (omega : Int) (yOf omega h) hbytes ho (by rw [hto]; exact hok) (by rw [hto]; exact hlen)
+  rw [hto] at h21
+  rw [hdec] at h21
+  rw [ey]
+  exact (ok_inj h21).symm
+
+/-- **`HintBitPack(HintBitUnpack(y)) = y`** on `Spec/*` alone: every hint section Algorithm 21 does not reject is the canonical encoding of what
+    it decodes to -/
+theorem hintBitPack_after_hintBitUnpack_as_written (omega k : Nat) (y : List Nat) (hok : 1 ≤ omega + k ∧ omega + k < 256)
+    (hy : ∀ b ∈ y, b < 256) (hlen : y.length = omega + k) (h : List Poly) (hd : Spec.hintBitUnpack omega k y = some h) :
+    Spec.hintBitPack omega h = y := by
+  have ho : (0 : Int) ≤ (omega : Int) := Int.natCast_nonneg _
+  have hto : ((omega : Int)).toNat = omega := Int.toNat_natCast omega
+  have h21 := hint_bit_unpack_is_algorithm_21 .release k (omega : Int) y hy ho (by rw [hto]; exact hok) (by rw [hto]; exact hlen)
+  rw [hto, hd] at h21
+  have hre := hint_section_reencodes_to_the_same_bytes .release k (omega : Int) y hy ho (by rw [hto]; exact hok) (by rw [hto]; exact hlen) h h21
+  -- the decoded vector is well-formed: k polynomials of 0/1 coefficients, at most omega ones
+  obtain ⟨r, hr, hprop⟩ := hintBitUnpack_ok .release k (omega : Int) y hy ho (by rw [hto]; exact hok) (by rw [hto]; exact hlen)
+  rw [h21] at hr
+  have hr' := ok_inj hr
+  obtain ⟨hl, hb⟩ := hprop h hr'.symm
+  have hw := spec_hintBitUnpack_weight omega k y h hd
+  have h20 := hint_bit_pack_is_HintBitPack .release (omega : Int) h k ho hl (by rw [hto]; exact hok) (fun q hq => (hb q hq).1) (by rw [hto]; exact hw)
+  rw [hto] at h20 hre
+  rw [h20] at hre
+  exact ok_inj hre
+
 theorem sigDecode_after_sigEncode_as_written (p : ParamSet) (hp : p ∈ [ml_dsa_44, ml_dsa_65, ml_dsa_87]) (blz : Nat) (cfg : SigCfg p blz)
     (ct : List Nat) (z h : List Poly) (hcb : ∀ b ∈ ct, b < 256) (hct : ct.length = p.lambdaDiv4) (hz : Sh p.l z)
     (hzr : ∀ q ∈ z, ∀ c ∈ q, -(p.gamma1 - 1) ≤ c ∧ c ≤ p.gamma1) (hh : Sh p.k h) (hb : ∀ q ∈ h, Bin q)
@@ -57,5 +99,16 @@ theorem sigEncode_after_sigDecode_as_written (p : ParamSet) (hp : p ∈ [ml_dsa_
     ⟨c4, fun q hq => (c5 q hq).1⟩ c5 hw
   rw [henc] at hre
   exact ok_inj hre
+
+/-- **no two signature strings are read as the same signature by Algorithm 27**: two byte strings of signature length that are both accepted and
+    decode to the same `(c~, z, h)` are equal -/
+theorem sigDecode_injective_as_written (p : ParamSet) (hp : p ∈ [ml_dsa_44, ml_dsa_65, ml_dsa_87]) (blz : Nat) (cfg : SigCfg p blz)
+    (s1 s2 : List Nat) (hb1 : ∀ x ∈ s1, x < 256) (hl1 : s1.length = p.sigLen) (hb2 : ∀ x ∈ s2, x < 256) (hl2 : s2.length = p.sigLen)
+    (h : List Poly) (hd1 : (Spec.sigDecode p.lambdaDiv4 p.l p.k p.omega.toNat blz p.gamma1 s1).2.2 = some h)
+    (he : Spec.sigDecode p.lambdaDiv4 p.l p.k p.omega.toNat blz p.gamma1 s1 = Spec.sigDecode p.lambdaDiv4 p.l p.k p.omega.toNat blz p.gamma1 s2) :
+    s1 = s2 := by
+  have e1 := sigEncode_after_sigDecode_as_written p hp blz cfg s1 hb1 hl1 h hd1
+  have e2 := sigEncode_after_sigDecode_as_written p hp blz cfg s2 hb2 hl2 h (by rw [← he]; exact hd1)
+  rw [← e1, ← e2, he]
 
 end Fips204.Props.C08
